@@ -146,6 +146,28 @@ Theorem C02_config_origin_is_config : forall n st name v c,
   resolve (n_cfg n) c (pr_defaults (n_proc n)) name = Ok v.
 Proof. intros n st name v c _ H. apply resolve_config. exact H. Qed.
 
+(* (4) reported origins versus the channel actually used.  "context" is always truthful when the key is
+   there; "default" is truthful exactly when the key is absent from the context — a key that a LATER
+   node requires (hence supplied initially) shadows it: this is the open finding F-C02-h, stated here. *)
+Theorem C02_origin_context_truthful : forall n st name j c,
+  classify n st name = OContext j -> has name c = true ->
+  exists v, lookup name c = Some v /\ resolve (n_cfg n) c (pr_defaults (n_proc n)) name = Ok v.
+Proof. exact origin_context_truthful. Qed.
+Theorem C02_origin_default_truthful_partial : forall n st name c,
+  classify n st name = ODefault -> has name c = false ->
+  exists v, lookup name (pr_defaults (n_proc n)) = Some v /\
+            resolve (n_cfg n) c (pr_defaults (n_proc n)) name = Ok v.
+Proof. exact origin_default_truthful. Qed.
+Definition shadowed : list inode :=
+  [ (nd (lib_src false) [("value", VNum 1)] None, TF); (nd (lib_mul true) [] None, TF); (nd (lib_mul false) [] None, TF) ].
+Theorem C02_origin_default_refuted :
+  (* node 2 reports factor = default, the required keys are exactly ["factor"], and with exactly that key
+     supplied node 2 multiplies by the context value 5, not by its default 2 *)
+  (let '(rs, required) := inspect impl shadowed in
+   (required, map (fun r => r_origins r) rs)) = (["factor"], [[]; [("factor", ODefault)]; [("factor", OContext None)]]) /\
+  run (map fst shadowed) (DNone, [("factor", VNum 5)]) = Done (DF 25, [("factor", VNum 5)]).
+Proof. vm_compute. split; reflexivity. Qed.
+
 (* Non-vacuity: an accepted pipeline meeting every hypothesis of (1), with honest nodes *)
 Definition good : list inode :=
   [ (nd (lib_src false) [("value", VNum 3)] None, TF); (nd lib_probe [] (Some "factor"), TF); (nd (lib_mul false) [] None, TF);
@@ -179,3 +201,6 @@ Print Assumptions C02_reported_keys_are_declared.
 Print Assumptions C02_invalid_iff_unconstructible.
 Print Assumptions C02_origin_last_writer.
 Print Assumptions C02_config_origin_is_config.
+Print Assumptions C02_origin_context_truthful.
+Print Assumptions C02_origin_default_truthful_partial.
+Print Assumptions C02_origin_default_refuted.
